@@ -31,9 +31,11 @@ def run(ctx):
     lists = fl.calls_to('hub::HubClient::list')
     disc = fl.calls_to('meta::discover_local_fingerprints')
     nexts = fl.calls_to('std::iter::Iterator::next')
-    if len(puts) != 1 or not lists or not disc or not nexts:
+    if not puts or not lists or not disc or not nexts:
         ctx.missing('C13.R1', 'hub_sync: put/list/discover/loop')
+    puts = sorted(puts, key=lambda x: x[0])
     pb, pt = puts[0]
+    put_blocks = {x[0] for x in puts}
     loops = cfg.loops()
     heads = [h for h, blocks in loops.items() if pb in blocks]
     nb = next((n for n, _ in nexts if any(n in loops[h] for h in heads)), None)
@@ -63,26 +65,32 @@ def run(ctx):
     if covered:
         errs = error_blocks(b)
         for (s, t, lab) in some_e:
-            r = cfg.reach(t, cut_edges=list(equal), cut_blocks=set([pb]) | errs)
+            r = cfg.reach(t, cut_edges=list(equal), cut_blocks=set(put_blocks) | errs)
             if r & (set(heads) | set(cfg.exits())):
                 covered = False
     ctx.check(covered, 'C13.R1', 'hub_sync:skip-or-put', 'each iteration passes the equal edge (skip) or the put call',
               'a local file can be neither proven equal to the listing nor Put (it would silently be missing on the hub)', term_loc(b, pb))
     # ---- R2
-    rel_o = fl.origins(pt['args'][1])
-    file_o = fl.origins(pt['args'][3])
-    hash_o = fl.origins(pt['args'][4])
     from_loop = lambda os_: any(o.kind == 'call' and o.key == 'std::iter::Iterator::next' for o in os_)
-    joined = False
-    for o in file_o:
-        if o.kind == 'call' and o.key == 'std::path::Path::join':
-            a0 = call_arg_origins(fl, o.bb, 0)
-            a1 = call_arg_origins(fl, o.bb, 1)
-            if all(x.kind == 'param' and x.key == 1 for x in a0) and from_loop(a1):
-                joined = True
-    hash_ok = bool(hash_o) and all(o.kind == 'call' and o.key == 'std::iter::Iterator::next' and o.path[-1:] == ('blake3',) for o in hash_o)
-    ctx.check(from_loop(rel_o) and joined and hash_ok, 'C13.R2', 'hub_sync:put-args', 'put(rel, listed, local_root.join(rel), fp.blake3) from one loop entry',
-              'the Put does not pair the path, the local file and its digest of the same local entry', term_loc(b, pb))
+    args_ok = True
+    bad_put = None
+    for pb_, pt_ in puts:
+        rel_o = fl.origins(pt_['args'][1])
+        file_o = fl.origins(pt_['args'][3])
+        hash_o = fl.origins(pt_['args'][4])
+        joined = False
+        for o in file_o:
+            if o.kind == 'call' and o.key == 'std::path::Path::join':
+                a0 = call_arg_origins(fl, o.bb, 0)
+                a1 = call_arg_origins(fl, o.bb, 1)
+                if all(x.kind == 'param' and x.key == 1 for x in a0) and from_loop(a1):
+                    joined = True
+        hash_ok = bool(hash_o) and all(o.kind == 'call' and o.key == 'std::iter::Iterator::next' and o.path[-1:] == ('blake3',) for o in hash_o)
+        if not (from_loop(rel_o) and joined and hash_ok):
+            args_ok = False
+            bad_put = pb_
+    ctx.check(args_ok, 'C13.R2', 'hub_sync:put-args', 'put(rel, listed, local_root.join(rel), fp.blake3) from one loop entry',
+              'the Put does not pair the path, the local file and its digest of the same local entry', term_loc(b, bad_put if bad_put is not None else pb))
     p = F.body('hub::HubClient::put')
     if p is None:
         ctx.missing('C13.R2', 'hub::HubClient::put')
@@ -120,22 +128,28 @@ def run(ctx):
                 streams = True
     ctx.check(streams, 'C13.R2', 'put:streams-file', 'io::copy(File::open(local), w) after the Put frame', 'HubClient::put does not stream the announced file right after the frame', loc(p, p.lo))
     # ---- R3
-    oc = fl.outcomes(pb)
-    ok_e = oc.get('Ok', set())
-    committed = fl.outcomes(pb)
-    f_e = committed.get('false', set())
-    t_e = committed.get('true', set())
+    ok_e, f_e, t_e = set(), set(), set()
+    all_ok = True
+    for pb_, _ in puts:
+        oc = fl.outcomes(pb_)
+        all_ok = all_ok and bool(oc.get('Ok'))
+        ok_e |= oc.get('Ok', set())
+        f_e |= oc.get('false', set())
+        t_e |= oc.get('true', set())
+    if not all_ok:
+        ok_e = set()
     oks = ok_assign_blocks(b, 'Ok')
     latch, lwhy = sticky_flag(fl, f_e, oks) if f_e and oks else (None, 'no not-committed edge / Ok return found')
     ctx.check(latch is not None, 'C13.R3', 'hub_sync:conflicts->Err', 'the not-committed edge latches a variable; Ok is returned only while it is untouched',
               'a lost CAS does not make hub_sync fail (%s)' % lwhy, term_loc(b, pb))
     # a lost (or won) CAS does not end the push: the loop goes on to the next local file
     stops = None
-    for (s_, t_, lab) in (f_e | t_e):
-        r = cfg.reach(t_, cut_blocks=[nb] if nb is not None else [])
+    reply_edges = (f_e | t_e) or ok_e      # the reply is in hand: after it, only the next entry or an I/O error
+    for (s_, t_, lab) in reply_edges:
+        r = cfg.reach(t_, cut_blocks=([nb] if nb is not None else []) + sorted(error_blocks(b)))      # an I/O error (`?`) may end the run
         if r & set(cfg.exits()):
             stops = t_
-    ctx.check(nb is not None and bool(f_e) and stops is None, 'C13.R3', 'hub_sync:conflict-does-not-stop-the-push', 'after a Put reply the loop always returns to the next local entry',
+    ctx.check(nb is not None and bool(reply_edges) and stops is None, 'C13.R3', 'hub_sync:conflict-does-not-stop-the-push', 'after a Put reply the loop always returns to the next local entry',
               'hub_sync can leave the loop after a Put reply (e.g. on a lost CAS): the local files that sort after it are never sent, so they are not retrievable from the hub',
               term_loc(b, stops) if stops is not None else term_loc(b, pb))
     ctx.check(bool(ok_e), 'C13.R3', 'hub_sync:put-error-propagates', 'client.put(..)? propagates errors', 'the result of client.put is not propagated', term_loc(b, pb))
